@@ -184,6 +184,50 @@ impl PathSelector for BiasedRttPathSelector {
     }
 }
 
+/// Verification hooks, compiled only with `--cfg iroh_verif`.
+///
+/// Runs the default selector on synthetic path data, the way the crate's own unit tests
+/// do through `PathSelectionContext::for_test`.  Nothing here exists in a normal build.
+#[cfg(iroh_verif)]
+pub mod verif_hooks {
+    use std::time::Duration;
+
+    use super::{BiasedRttPathSelector, PathSelectionContext, PathSelectionData, PathSelector};
+    use crate::socket::transports::FourTuple;
+
+    /// The crate-private `IPV6_RTT_ADVANTAGE`.
+    pub const IPV6_RTT_ADVANTAGE: Duration = super::IPV6_RTT_ADVANTAGE;
+    /// The crate-private `RTT_SWITCHING_MIN`.
+    pub const RTT_SWITCHING_MIN: Duration = super::RTT_SWITCHING_MIN;
+
+    /// Runs `BiasedRttPathSelector::default().select(..)` on a synthetic context.
+    ///
+    /// `paths` are the candidate paths in iteration order, each with the RTT of its
+    /// statistics, or `None` when the statistics cannot be read.  Returns the selected
+    /// path, `None` for an empty selection.
+    pub fn select_default(
+        current: Option<&FourTuple>,
+        paths: &[(FourTuple, Option<Duration>)],
+    ) -> Option<FourTuple> {
+        let data = paths
+            .iter()
+            .map(|(addr, rtt)| {
+                let stats = rtt.map(|rtt| {
+                    let mut stats = noq::PathStats::default();
+                    stats.rtt = rtt;
+                    stats
+                });
+                PathSelectionData::for_test(addr, stats)
+            })
+            .collect();
+        let ctx = PathSelectionContext::for_test(current, data);
+        BiasedRttPathSelector::default()
+            .select(&ctx)
+            .selected()
+            .cloned()
+    }
+}
+
 #[cfg(test)]
 mod tests {
     use std::net::{Ipv4Addr, Ipv6Addr, SocketAddr, SocketAddrV4, SocketAddrV6};
